@@ -45,7 +45,8 @@ def required_cells(tier):
             "action:store_split", "action:extend_match", "extend_match:override", "extend_match:no-override", "rule:two-flags",
             "pass-with-modes", "user-extends-builtin", "user-redefines-as-alias", "implicit==explicit", "alias==target",
             "repeat-parse", "implicit-option:attached-value", "builtin:gcc", "builtin:clang", "builtin:icx", "builtin:nvcc", "e2e:_OPENMP", "e2e:__CUDA_ARCH__",
-            "e2e:__SYCL_DEVICE_ONLY__", "e2e:passes-differ-in-include-files", "unknown-compiler", "e2e:passes-differ-in-include-paths", "format:$value", "format:${value}", "argv0:symlink-to-known-compiler"]
+            "e2e:__SYCL_DEVICE_ONLY__", "e2e:passes-differ-in-include-files", "unknown-compiler", "e2e:passes-differ-in-include-paths", "format:$value", "format:${value}", "argv0:symlink-to-known-compiler",
+            "implicit-option:dollar-name-set-in-environment", "argv:strict-prefix-of-configured-flag"]
 
 
 # ------------------------------------------------------------------ TOML --
@@ -161,6 +162,10 @@ def gen_config(rng):
         if rng.random() < 0.3:
             opts += [f"-isystem/implicit/sys_{prefix}", f"-includeimplicit_{prefix}.h"]    # value attached to the flag
             cells.add("implicit-option:attached-value")
+        if rng.random() < 0.2:
+            # implicit options are literal strings: `$NAME` is not expanded even if NAME is set in the environment
+            opts += ["-DBUILD_ROOT=$CBI_ENVVAR", "-I$CBI_ENVVAR/include", "-D${CBI_ENVVAR}_X=~"]
+            cells.add("implicit-option:dollar-name-set-in-environment")
         if rules and rng.random() < 0.3:
             r0 = rules[0]
             if r0["action"] == "append_const":
@@ -221,6 +226,9 @@ def gen_config(rng):
     return user, cells
 
 
+ABBREV_SEEN = [0]
+
+
 def gen_argv(rng, compilers, name):
     comp, status = ccmodel.resolve(compilers, name)
     comp = comp or {}
@@ -248,6 +256,12 @@ def gen_argv(rng, compilers, name):
                 argv += [f"{f}={vals}"] if rng.random() < 0.6 else [f, vals]
                 if rng.random() < 0.3:
                     argv += [f"{f}={vals}"]
+    for r in comp.get("parser", []):
+        # a strict prefix of a configured double-dash flag is some other, unknown option (no abbreviations)
+        f = r["flags"][0]
+        if f.startswith("--") and rng.random() < 0.15:
+            argv.append(f[:-1] if r["action"] == "append_const" else f[:-1] + "=a_1,b_2")
+            ABBREV_SEEN[0] += 1
     rng.shuffle(argv) if rng.random() < 0.5 and not any(a in ("-D", "-I", "-isystem", "-include") or (not a.startswith("-")) for a in argv) else None
     argv.append("src.c")
     return argv
@@ -621,6 +635,7 @@ def run_shard(ctx):
     work = os.path.join(ctx.scratch, "c12")
     os.makedirs(work, exist_ok=True)
     old = os.getcwd()
+    os.environ["CBI_ENVVAR"] = "/opt/elsewhere"
     try:
         # E1: built-in files, every flag subset
         load_user(config, work, None)
@@ -697,6 +712,10 @@ def run_shard(ctx):
                 # every dotted name and both ends / the middle of a long alias chain are exercised
                 if "." in nm or (nm.startswith("ln") and nm in ("ln0", "ln1", "ln2", "ln9")):
                     cmds.append((r2.choice(["", "/opt/x.y/bin/"]) + nm, gen_argv(r2, compilers, nm)))
+            if ABBREV_SEEN[0]:
+                cells.add("argv:strict-prefix-of-configured-flag")
+                ABBREV_SEEN[0] = 0
+            cmds.append(("nvcc", ["--gpu-arch=sm_80", "--gpu-architectur", "sm_90", "k.cu"]))     # not abbreviations of --gpu-architecture
             check_commands(ctx, config, builtin, user, cmds, cells, "R")
             relations(ctx, config, builtin, user, r2, cells)
             implicit_explicit(ctx, config, builtin, user, r2, work)
